@@ -1686,8 +1686,10 @@ impl Node {
     }
 
     /// Return the remaining time to live.
+    ///
+    /// This is zero if the node has expired.
     pub fn ttl(&self) -> Duration {
-        self.valid_for - self.created_at.elapsed()
+        self.valid_for.saturating_sub(self.created_at.elapsed())
     }
 }
 
